@@ -3,6 +3,8 @@
 package tensor
 
 import (
+	"unsafe"
+
 	"gorgonia.org/tensor/internal/vsync"
 )
 
@@ -24,12 +26,27 @@ func VerifIntsPoolItems() [][][]int {
 	return out
 }
 
-// VerifIntsPoolIndex returns the size class of an ints pool, or -1.
-func VerifIntsPoolIndex(p *vsync.Pool) int {
-	for i := range intsPool {
-		if &intsPool[i] == p {
-			return i
-		}
+// VerifSetHooks installs the explorer's hooks into the sync shim (nil removes them). Mutexes and pools are identified
+// by address.
+func VerifSetHooks(point func(what string), answer func(pool uintptr, n int) int, lock, unlock func(m uintptr), event func(ev string, pool uintptr, item interface{})) {
+	vsync.PointHook = point
+	if answer != nil {
+		vsync.AnswerHook = func(p *vsync.Pool, n int) int { return answer(uintptr(unsafe.Pointer(p)), n) }
+	} else {
+		vsync.AnswerHook = nil
 	}
-	return -1
+	if lock != nil {
+		vsync.LockHook = func(m *vsync.Mutex) { lock(uintptr(unsafe.Pointer(m))) }
+		vsync.UnlockHook = func(m *vsync.Mutex) { unlock(uintptr(unsafe.Pointer(m))) }
+	} else {
+		vsync.LockHook, vsync.UnlockHook = nil, nil
+	}
+	if event != nil {
+		vsync.EventHook = func(ev string, p *vsync.Pool, item interface{}) { event(ev, uintptr(unsafe.Pointer(p)), item) }
+	} else {
+		vsync.EventHook = nil
+	}
 }
+
+// VerifRealSync reports whether the library is built against the real package sync.
+func VerifRealSync() bool { return false }
